@@ -107,6 +107,17 @@ func c06gen(r *gen.R, testing bool) c06case {
 	default:
 		c.msg = "<b>bold</b> and <i>it</i>\nsecond <u>line</u>" + r.Str(gen.StrOpt{HostilePc: 30, NoESC: true})
 	}
+	switch {
+	case r.P(2):
+		// a message that consists of white space the blank-line rule does not name (only blank, tab, CR and LF make a
+		// Print blank): it is a message like any other, at every severity
+		c.msg = gen.Pick(r, []string{"\u00a0", "\u3000", "\u2003\u2003", "\u205f", "\u00a0 \u00a0", "\u2002x"})
+		c.layoutOK = true
+	case r.P(2):
+		// a very long line after the first one (no line is too long to be indented and printed)
+		c.msg = "head\n" + strings.Repeat("0123456789abcdef", gen.Pick(r, []int{4095, 4096, 4097, 8192})) + gen.Pick(r, []string{"", "x"}) + "\ntail"
+		c.layoutOK = true
+	}
 	if c.lvl == slog.AlwaysLevel && strings.Trim(c.msg, "\n\r \t") == "" {
 		c.msg = "x" + c.msg
 	}
